@@ -1,6 +1,7 @@
 import ComposeVerif.Lemmas.FanoutProgress
 import ComposeVerif.Lemmas.Interleave
 import ComposeVerif.Gen.Globals
+import ComposeVerif.Gen.FanoutSource
 import ComposeVerif.Neg.C19
 import ComposeVerif.Lemmas.AuditCmd  -- so that `lake build Props.C19` also builds the audit command used by `check`
 /-!
@@ -213,6 +214,67 @@ theorem guarded_vars_always_locked :
 theorem no_global_escapes_by_return : globalsReturned = [] := by
   decide
 
+/-- **the modelled function is the source's**: the statement skeleton of `WithServicesTransform` (hook calls and comments
+    removed) regenerated from the tree is, line for line, the one `Model/Fanout.lean` was written against — `expect` is the
+    number of services and the result channel is buffered with exactly that capacity (`wSend` never blocks), the field is
+    read before the collector starts, the collector selects on `ctx.Done()` and the channel and counts down, a worker
+    tests the error before it sends.  An unbuffered channel, a dropped `select` case, a send before the error test … all
+    change this fact. -/
+theorem fanout_source_is_modelled :
+    fanoutSource =
+    [
+    "func (p *Project) WithServicesTransform(fn func(name string, s ServiceConfig) (ServiceConfig, error)) (*Project, error) {",
+    "type result struct {",
+    "name string",
+    "service ServiceConfig",
+    "}",
+    "expect := len(p.Services)",
+    "resultCh := make(chan result, expect)",
+    "newProject := p.deepCopy()",
+    "services := newProject.Services",
+    "eg, ctx := errgroup.WithContext(context.Background())",
+    "eg.Go(func() error {",
+    "s := Services{}",
+    "for expect > 0 {",
+    "select {",
+    "case <-ctx.Done():",
+    "return nil",
+    "case r := <-resultCh:",
+    "s[r.name] = r.service",
+    "expect--",
+    "}",
+    "}",
+    "newProject.Services = s",
+    "return nil",
+    "})",
+    "for n, s := range services {",
+    "name := n",
+    "service := s",
+    "eg.Go(func() error {",
+    "updated, err := fn(name, service)",
+    "if err != nil {",
+    "return err",
+    "}",
+    "resultCh <- result{",
+    "name: name,",
+    "service: updated,",
+    "}",
+    "return nil",
+    "})",
+    "}",
+    "return newProject, eg.Wait()",
+    "}"] := by
+  decide
+
+/-- reference-typed package-level variables leave their variable only once: the interpolation cast table is placed in the
+    per-load `interp.Options.TypeCastMapping` (by `loader.toOptions`) — and nothing in the module stores or deletes through
+    a field of that name, so the copy is read-only.  A table handed to a struct field / map / slice / channel, or `&G`
+    handed to code outside the module, adds a row here; a store through such a field adds one to the last list. -/
+theorem global_escapes_reviewed :
+    globalsEscaping = [("loader", "interpolateTypeCastMapping", "loader.toOptions", "literal:interp.Options.TypeCastMapping")] ∧
+    escapedIntoFields = ["TypeCastMapping"] ∧ storesThroughEscapedFields = [] := by
+  decide
+
 /-- the statement order the model's initial state assumes (the caller reads `newProject.Services` before the collector
     goroutine exists, two `eg.Go` sites) is the order of the source now -/
 theorem fanout_model_order_is_the_sources : fanoutFieldReadPrecedesSpawn = true := by decide
@@ -225,6 +287,70 @@ theorem caller_owned_writes_reviewed_partial :
   decide
 
 end CV.Gen
+
+namespace CV.Interleave
+
+/-- **from the static facts to `WritesOwn`** — the step that was "by convention" made explicit.  Let `foot t` be a set of
+    locations that over-approximates what load `t` may write (`frame`: a step changes nothing outside it).  If
+    (`globalFoot`) a package-level variable is in a load's footprint only when the regenerated table lists a write to it
+    that is reachable from a load entry point, after `init`, without a held lock — and
+    `CV.Gen.shared_writes_reviewed` says there is no such row — and (`privFoot`) every other location of the footprint is
+    owned by the writing load, then the loads write only what they own; with `ReadsOwnOrShared` every interleaving
+    gives each load the state it reaches alone and leaves the package-level variables untouched.
+    What stays trusted is exactly `frame` + `globalFoot`: that `translator/globals.go` sees every write (its blind spots are
+    listed in design/C19.md). -/
+theorem noninterf_from_static_facts {L Val Tid : Type} [DecidableEq Tid] (S : Sys (PLoc L) Val Tid)
+    (foot : Tid → PLoc L → Prop)
+    (frame : ∀ t m x, ¬ foot t x → S.step t m x = m x)
+    (globalsShared : ∀ p v, S.owner (.global p v) = none)
+    (globalFoot : ∀ t p v, foot t (.global p v) → ∃ w, (p, v, w, true) ∈ CV.Gen.unguardedGlobalWrites)
+    (privFoot : ∀ t l, foot t (.priv l) → S.owner (.priv l) = some t)
+    (hR : ReadsOwnOrShared S) (sched : List Tid) (m : PLoc L → Val) :
+    (∀ t x, S.owner x = some t → exec S sched m x = solo S t (sched.count t) m x) ∧
+    (∀ p v, exec S sched m (.global p v) = m (.global p v)) := by
+  have hnone : ∀ p v w, (p, v, w, true) ∉ CV.Gen.unguardedGlobalWrites := by
+    intro p v w hmem
+    have h := CV.Gen.shared_writes_reviewed.2
+    have : (p, v, w, true) ∈ CV.Gen.unguardedGlobalWrites.filter (fun (_, _, _, reach) => reach) :=
+      List.mem_filter.mpr ⟨hmem, rfl⟩
+    rw [h] at this; cases this
+  have hW : WritesOwn S := by
+    intro t m x hx
+    apply frame
+    intro hf
+    cases x with
+    | global p v => obtain ⟨w, hw⟩ := globalFoot t p v hf; exact hnone p v w hw
+    | priv l => exact hx (privFoot t l hf)
+  have h := interleave_noninterf S hW hR sched m
+  exact ⟨h.1, fun p v => h.2 _ (globalsShared p v)⟩
+
+/-- non-vacuity: two loads that each add the value of a package-level table entry to their own counter satisfy every
+    hypothesis of `noninterf_from_static_facts` (footprint = the load's own counter) -/
+def exLoads : Sys (PLoc Bool) Nat Bool :=
+  { owner := fun x => match x with | .global _ _ => none | .priv b => some b,
+    step := fun t m x => if x = .priv t then m x + m (.global "loader" "interpolateTypeCastMapping") else m x }
+
+example (sched : List Bool) (m : PLoc Bool → Nat) :
+    ∀ p v, exec exLoads sched m (.global p v) = m (.global p v) :=
+  (noninterf_from_static_facts exLoads (fun t x => x = .priv t)
+    (by intro t m x hx; simp only [exLoads]; split
+        · next h => exact absurd h hx
+        · rfl)
+    (by intro p v; rfl)
+    (by intro t p v h; cases h)
+    (by intro t l h; cases h; rfl)
+    (by intro t m m' hA x hx
+        cases x with
+        | global p v => simp [exLoads] at hx
+        | priv b =>
+          simp only [exLoads] at hx
+          have hb : b = t := by injection hx
+          subst hb
+          simp only [exLoads, if_true]
+          rw [hA (.priv b) (.inl rfl), hA (.global _ _) (.inr rfl)])
+    sched m).2
+
+end CV.Interleave
 
 /-! ### non-vacuity: the hypotheses are satisfiable by non-trivial values -/
 namespace CV.Fanout
